@@ -603,3 +603,56 @@ func (x *gen) directedReadHeartbeat() {
 	}
 	c.exec("flush 6")
 }
+
+// directedSelfAck (asynchronous storage writes): the leader hands new entries to its append thread,
+// which does not run; a follower persists and acknowledges them first; then the leader crashes.
+func (x *gen) directedSelfAck() {
+	c := x.c
+	l := x.leader()
+	if l == nil || !c.base.Async || len(c.alive()) < 3 {
+		x.idle()
+		return
+	}
+	c.exec("flush 4")
+	if !l.alive || l.rn == nil {
+		return
+	}
+	rest := x.others(l.id)
+	f := rest[x.g.Intn(len(rest))]
+	c.exec(fmt.Sprintf("propose %d", l.id))
+	c.exec(fmt.Sprintf("sub %d", l.id)) // MsgApp goes out, the leader's own write is queued
+	// only f receives the entries, persists them and acknowledges
+	for i := 0; i < len(c.net) && !c.stopped; {
+		if m := c.net[i]; m.GetTo() != f.id {
+			c.exec(fmt.Sprintf("drop %d", i))
+			continue
+		}
+		c.exec(fmt.Sprintf("deliver %d", i))
+	}
+	c.exec(fmt.Sprintf("process %d", f.id))
+	for i := 0; i < len(c.net) && !c.stopped; {
+		if m := c.net[i]; m.GetTo() != l.id {
+			c.exec(fmt.Sprintf("drop %d", i))
+			continue
+		}
+		c.exec(fmt.Sprintf("deliver %d", i))
+	}
+	c.exec(fmt.Sprintf("sub %d", l.id)) // commit index after f's acknowledgement alone?
+	if x.g.Intn(2) == 0 {
+		c.exec(fmt.Sprintf("crash %d", l.id))
+		c.exec(fmt.Sprintf("restart %d", l.id))
+		// the others elect a leader among themselves without f
+		x.isolate(f)
+		var side []*Node
+		for _, n := range c.alive() {
+			if n != f {
+				side = append(side, n)
+			}
+		}
+		if nl := x.electAmong(side, 0, nil); nl != nil {
+			c.exec(fmt.Sprintf("propose %d", nl.id))
+		}
+		c.exec("unblock")
+	}
+	c.exec("flush 6")
+}
